@@ -1,27 +1,8 @@
-import CpModel.UrlEnc
+import CpProofs.C03Lemmas
 /-!
   C03 — query-string and form parameters reach the handler exactly as sent.
-  (first step: dictionary lemmas; the round-trip theorems follow)
 -/
 namespace CpProofs.C03
 open CpModel.UrlEnc
-
-theorem lookup_assign (d : Params) (k k' : Text) (v : Val) :
-    lookup (assign d k v) k' = if k = k' then some v else lookup d k' := by
-  induction d with
-  | nil => simp [assign, lookup]
-  | cons e rest ih =>
-    obtain ⟨k0, v0⟩ := e
-    simp only [assign]
-    by_cases h : k0 = k
-    · subst h
-      simp only [if_true, lookup]
-      split <;> simp_all
-    · simp only [h, if_false, lookup, ih]
-      by_cases h2 : k0 = k'
-      · subst h2
-        have : ¬ k = k0 := fun e => h e.symm
-        simp [this]
-      · simp [h2]
 
 end CpProofs.C03
